@@ -17,7 +17,7 @@ META = {
         note="Trusted: urllib.parse.urljoin/urldefrag; CPython generator finalisation.",
         technique="static analysis: typestate/pairing on CFG with close edges, reaching definitions, provenance", ref="5/C02"),
     "C03": dict(
-        text="Abstract interpretation over a JSON-kind lattice with exception effects: for each (draft, keyword, function), under the value shapes the bundled metaschema admits (computed from the metaschema data) and any JSON instance, no operation can raise anything but the documented exceptions; no message is built with data in the template position of % / format; no applicator asks for the verdict of the same (part, subschema) pair twice in one call (exponential nesting cost); push/pop pairing (a pop that was never pushed empties the scope stack). Known findings are listed individually.",
+        text="Abstract interpretation over a JSON-kind lattice with exception effects: for each (draft, keyword, function), under the value shapes the bundled metaschema admits (computed from the metaschema data) and any JSON instance, no operation can raise anything but the documented exceptions; no message is built with data in the template position of % / format; no applicator asks for the verdict of the same (part, subschema) pair twice in one call (exponential nesting cost); push/pop pairing (a pop that was never pushed empties the scope stack); text conversion (str/repr/%/format/f-string) of a value that may hold an unbounded int is modelled as raising ValueError (CPython's int->str digit limit), with the distinction whether the text is built only when an error is reported; validate()/check_schema totality on schemas alone (R3.8); RefResolutionError is raised only by the resolver (R3.9). Known findings (F-5 URI parsing ValueErrors, F-18 digit limit in messages) are listed individually in known_findings.json.",
         note="Trusted: the operation model (Appendix C) and callee exception model (4.3); regexes compile and $ref values are strings (property's provisos); recursion depth / cyclic $ref not modelled.",
         technique="static analysis: abstract interpretation (kind lattice + exception effects), interprocedural by inlining", ref="5/C03"),
     "C04": dict(
@@ -41,23 +41,23 @@ META = {
         note="Trusted: Python == on int/float/str/list/dict.",
         technique="static analysis: taint/provenance of comparison operands, abstract evaluation of the normaliser", ref="5/C08"),
     "C09": dict(
-        text="Static: numeric exception-effect analysis shows no finite number can make a numeric keyword raise; comparison keywords compare the raw operands (no lossy conversion); the int/int path of multipleOf uses integer %; every verdict definition depends on both operands; R9.6: multipleOf/divisibleBy on 258 and each bound keyword on 70+ concrete number pairs (integers to 10**400, floats over the whole exponent range, 2**53 neighbours, signed zeros) agree with exact rational arithmetic where the property claims a verdict and raise nowhere. Not decided beyond that table: floating-point exactness on the whole exact sub-domain.",
+        text="Static: numeric exception-effect analysis shows no finite number can make a numeric keyword raise; comparison keywords compare the raw operands (no lossy conversion); the int/int path of multipleOf uses integer %; every verdict definition depends on both operands; R9.6: multipleOf/divisibleBy on 258 and each bound keyword on 70+ concrete number pairs (integers to 10**400, floats over the whole exponent range, 2**53 neighbours, signed zeros) agree with exact rational arithmetic where the property claims a verdict and raise nowhere (the message of a reported error on an integer of more than 4300 digits is the known finding F-18). Not decided beyond that table: floating-point exactness on the whole exact sub-domain.",
         note="Trusted: Python arbitrary-precision int/float comparison is exact; operation model for OverflowError/ZeroDivisionError.",
         technique="static analysis: abstract interpretation restricted to numeric kinds, operand provenance; definitional interpreter (sa/tokeval.py) on a table of concrete number pairs compared with exact rational arithmetic", ref="5/C09"),
     "C10": dict(
-        text="Static: the set of schema keys validation-reachable code can read, per draft, equals vocabulary + declared siblings + id key + $ref; unknown key has no effect in the dispatcher; nothing else iterates a schema object; id key per draft.",
+        text="Static: the set of schema keys validation-reachable code can read, per draft, equals vocabulary + declared siblings + id key + $ref; unknown key has no effect in the dispatcher; nothing else iterates a schema object; id key per draft; only the class's id_of reads an id key (R10.12); resolving a fragment is insensitive to annotation/unknown members (R10.9); the CLI reads no id (R10.10).",
         note="Trusted: spec vocabulary tables; messages embedding repr(schema) are message-only.",
         technique="static analysis: constant-key read-set extraction over resolved call graph, CFG edge rule", ref="5/C10"),
     "C11": dict(
-        text="Static: check_schema validates against its own class's metaschema with no format checker and re-types the first error only; each bundled metaschema is closed under $ref, uses only defined type names, and every keyword value in it lies in the shape C03 proves safe; ids agree with the class's id key. Not decided: accepts exactly what the metaschema allows (needs an independent evaluator).",
+        text="Static: check_schema validates against its own class's metaschema with no format checker and re-types the first error only; each bundled metaschema is closed under $ref, uses only defined type names, and every keyword value in it lies in the shape C03 proves safe; ids agree with the class's id key; every member name used in a bundled metaschema is a keyword, an annotation or a declared modifier of its draft (R11.15); RefResolutionError only from the resolver (R11.14). Not decided: accepts exactly what the metaschema allows (needs an independent evaluator).",
         note="Trusted: json module parsing of the bundled files.",
         technique="static analysis: structural wiring check + data closure checks on metaschema files", ref="5/C11"),
     "C12": dict(
-        text="Static: format yields only under checker-present; only FormatError is converted and its cause forwarded; check returns early on unknown names, catches exactly `raises`, raises FormatError iff falsy result; conforms wraps check; every registered built-in checker passes non-strings before touching the instance (CFG must-pass-through on all registration branches); the subset constructor walks its `formats` iterable once.",
+        text="Static: format yields only under checker-present; only FormatError is converted and its cause forwarded; check returns early on unknown names, catches exactly `raises`, raises FormatError iff falsy result; conforms wraps check; every registered built-in checker passes non-strings before touching the instance (CFG must-pass-through on all registration branches); the subset constructor walks its `formats` iterable once; the checker object is used as given, a falsy one included (R12.9); nothing but FormatError leaves check and nothing leaves conforms, for any instance (R12.11); each bundled metaschema admits every string as a format name (R12.12).",
         note="Trusted: none beyond Python semantics; is_uri_template note when uritemplate absent.",
         technique="static analysis: CFG must-pass-through, handler-shape rules", ref="5/C12"),
     "C13": dict(
-        text="Static: each built-in checker's `raises` covers everything its delegate can raise on arbitrary strings (callee exception model); results on the string path are verdict-truthy; no checker delegates bare to a parser known to accept a strict superset of its grammar; the email verdict is evaluated over the three positions of the first @; regex pre-filters that lead straight to `return False` are compared with the format's grammar as regular languages (NFAs built from the regex syntax trees, product emptiness / inclusion, shortest witness). Not decided: exactness of stdlib grammars.",
+        text="Static: each built-in checker's `raises` covers everything its delegate can raise on arbitrary strings (callee exception model); results on the string path are verdict-truthy; no checker delegates bare to a parser known to accept a strict superset of its grammar; the email verdict is evaluated over the three positions of the first @; regex pre-filters that lead straight to `return False` are compared with the format's grammar as regular languages (NFAs built from the regex syntax trees, product emptiness / inclusion, shortest witness); per-format tables of concrete strings (date, time, ipv4, ipv6, json-pointer, relative-json-pointer, regex, color) evaluated through the checker functions against the format's grammar (R13.8). Not decided: exactness of stdlib grammars.",
         note="Trusted: callee exception/grammar model of ipaddress, datetime, re, idna (4.3).",
         technique="static analysis: exception-effect containment against a callee model", ref="5/C13"),
     "C14": dict(
@@ -65,15 +65,15 @@ META = {
         note="Trusted: str.split/replace/unquote semantics.",
         technique="static analysis: def-use pipeline extraction and order rules", ref="5/C14"),
     "C15": dict(
-        text="Static: store consulted before retrieval; retrieval failures wrapped; store written outside __init__ only under cache_remote; URIDict normalises on every accessor; store seeded from the registry; caches per resolver. Not decided: fetch counts over histories.",
+        text="Static: store consulted before retrieval; retrieval failures wrapped; store written outside __init__ only under cache_remote; URIDict normalises on every accessor; store seeded from the registry; caches per resolver; a handler's document is used as returned, falsy ones included (R15.8); from_schema forwards its arguments and keys the store by the id the class reads (R15.9). Not decided: fetch counts over histories.",
         note="Trusted: lru_cache semantics; MutableMapping mixins.",
         technique="static analysis: dominators, handler coverage, who-may-write, sibling agreement", ref="5/C15"),
     "C16": dict(
-        text="Static ownership rules: create/extend copy tables before storing/updating; types= rebinds on the instance; TypeChecker is frozen over a persistent map and its mutators return evolved copies; FormatChecker.__init__ always binds a fresh dict; the four draft checkers are four objects; nobody writes another class's tables.",
+        text="Static ownership rules: create/extend copy tables before storing/updating; types= rebinds on the instance; TypeChecker is frozen over a persistent map and its mutators return evolved copies; FormatChecker.__init__ always binds a fresh dict; the four draft checkers are four objects; nobody writes another class's tables; no keyword function decides by validating against a schema literal naming another keyword, which would couple the two table entries under extend() (R16.13; Draft 3 disallow/type listed with its reason).",
         note="Trusted: attrs frozen/evolve, pyrsistent pmap purity.",
         technique="static analysis: aliasing/ownership (fresh-container) rules, who-may-write", ref="5/C16"),
     "C17": dict(
-        text="Static: ErrorTree construction cannot reach a raising lookup on user data; each error is filed under its own keyword at the node reached by its own path; accessors agree on one container; total_errors depends on own errors and every child. Not decided: concrete counts.",
+        text="Static: ErrorTree construction cannot reach a raising lookup on user data; each error is filed under its own keyword at the node reached by its own path; accessors agree on one container; total_errors depends on own errors and every child; lookup of an error-free member subscripts only a container instance, never a recorded property name (F-17, fixed). Not decided: concrete counts.",
         note="Trusted: defaultdict semantics.",
         technique="static analysis: call-graph reachability to raising subscript, def-use dependence", ref="5/C17"),
     "C18": dict(
